@@ -8,6 +8,28 @@ BASE = json.load(open("/root/.vp/BASELINE.json"))
 
 # pid -> (technique, level text, level note, design ref)
 CLAIMED = {
+    "C02": ("TLA+ Structure.tla: TLC RotInv on all rotations of small worlds + TLC validation of (record, record >> k) typing traces",
+            "Rotation invariance of typing is an invariant of the specification checked by TLC on every plasmid and every rotation of constructed small worlds; the real classes (generic over 26 real + 5 synthetic geometries, user parts, 85 kit classes, registry plasmids) are queried on record and record >> k through the public API and TLC judges each pair, evaluating the unique-match precondition itself.",
+            "Small-scope + sampled rotations (boundary-directed); assembly half uses the assembly traces.", "6/C02"),
+    "C04": ("TLA+ Restriction.tla/Structure.tla: TLC DigestAgreement on small worlds + TLC validation of typing traces against cuts computed from (site, off, ovh)",
+            "TLC recomputes, for every accepted record, the enzyme's cut positions from the declared geometry by plain site search and checks that the reported overhangs/target/placeholder are exactly those restriction fragments; the same theorem is model-checked on small worlds including the docs' canonic decomposition.",
+            "Oracle independent of the structure patterns; sampled inputs beyond the small worlds.", "6/C04"),
+    "C05": ("TLA+ Structure.tla: TLC PartIffGenericAndSignature on small worlds + TLC validation of part/generic typing and characterize traces",
+            "The iff between a signature-typed part and (generic class accepts and IUPAC signature matches) is model-checked on small worlds and evaluated by TLC on every logged query of the 59 signature-typed kit classes and random user signatures; characterize is judged against the candidates' Typing.",
+            "Precondition (two sites, unique generic match) evaluated by the spec.", "6/C05"),
+    "C06": ("TLA+ Session.tla: TLC over all validation histories + negative model + every history replayed into real classes + TLC validation of kit-class histories",
+            "The pattern cache is a state variable of the specification; TLC enumerates every history up to the bound, the negative model (inherited lookup) is refuted, each enumerated history is replayed on a freshly built real class tree, and histories over the 85 kit classes run in forked pristine children are validated event by event (answer vs fresh process vs Typing of the class's own structure, cache slots).",
+            "Histories bounded (3/4 calls exhaustive; longer ones random).", "6/C06"),
+    "C12": ("TLA+ Structure.tla: TLC StrandSym on small worlds + TLC validation of (record, reverse complement) typing traces",
+            "Strand symmetry is an invariant checked by TLC on the small worlds and on every (record, reverse complement) pair driven through the real generic classes over all geometries.",
+            "Precondition (exactly two sites) evaluated by the spec; assembly half uses the assembly traces.", "6/C12"),
+    "C17": ("TLA+ Structure.tla: TLC totality on all words up to a bound + TLC validation of fuzzed typing traces",
+            "Typing is a total operator (TLC evaluates it on every word up to length 8/10 and on the small worlds); every kit class and generic class is fuzzed with IUPAC strings, corrupted and truncated instances and TLC checks Boolean verdicts and InvalidSequence on every query of invalid records.",
+            "Fuzzing is sampled; assembly half uses the assembly traces.", "6/C17"),
+    "C18": ("TLA+ Structure.tla: TLC CaseInv on small worlds + TLC validation of (record, re-cased record) typing traces",
+            "Case invariance is an invariant of the specification and is evaluated by TLC on every (record, re-cased twin) pair driven through the real classes.",
+            "Sampled case masks; assembly half uses the assembly traces.", "6/C18"),
+
     "C16": ("TLA+ spec DNARegex.tla: TLC small-scope theorems (MC_DNARegex) + TLC validation of implementation traces (Trace_Regex) recomputing every search",
             "The search semantics (leftmost start, one-turn window, linear never wraps, group text, IUPAC table) is a TLA+ operator; TLC proves the implementation-shaped definition equal to the declarative one on all small patterns/targets, and recomputes every DNARegex.search call of a systematic enumeration driven through the real code, comparing start, end, spans and group texts event by event.",
             "Exhaustive only within the stated bounds; Python re is trusted for the token subset (letters, groups, greedy/lazy runs).", "6/C16"),
